@@ -98,6 +98,15 @@ def run(ctx):
         mu2 = float(gas.viscosity_Sutton(T, p * 1.05, tpc, ppc, sg))
         if not (mu > 0 and math.isfinite(mu)) or not mu2 > mu:
             bad("gas viscosity is not positive / does not increase with pressure", inp, dict(mu=mu, mu_at_1p05p=mu2))
+        # the same gas functions with the pressure given in the other scalar forms (numpy scalars, 0-d array, Python int, float32)
+        if k % 25 == 3:
+            pin = float(int(p)) if p > 20 else 20.0
+            gi = dict(T=T, Tpc=tpc, Ppc=ppc, sg=sg)
+            rep = lambda what, i_, got_, want_: bad(what, i_, dict(got=got_, expected=want_))
+            for label, fn in (("gas.z_factor_DAK", lambda q: gas.z_factor_DAK(T, q, tpc, ppc)), ("gas.density_DAK", lambda q: gas.density_DAK(T, q, tpc, ppc, sg)),
+                              ("gas.b_factor_DAK", lambda q: gas.b_factor_DAK(T, q, tpc, ppc)), ("gas.compressibility_DAK", lambda q: gas.compressibility_DAK(T, q, tpc, ppc)),
+                              ("gas.viscosity_Sutton", lambda q: gas.viscosity_Sutton(T, q, tpc, ppc, sg))):
+                ev += dom.check_forms(fn, pin, dom.SCALAR_FORMS, rep, label, gi)
         # ---------------- oil
         To, api, gg, rsi, pb = dom.oil_params(rng, edge=True)
         po = float(rng.uniform(15, 2.5 * pb)) if k % 4 else pb
